@@ -2249,7 +2249,7 @@ class Interp:
                 callee = env[segs[0]]
                 if callee[0] == 'closure':
                     return self.apply(callee, args)
-                return ('callv', callee, args)
+                return self.call_value(callee, args)
             p = self.resolve(segs)
             if p in self.c.fns:
                 self.inline_calls.append((self.frame['callee'], p, e['line']))
@@ -2323,12 +2323,61 @@ class Interp:
         callee = self.expr(f, env)
         if callee[0] == 'closure':
             return self.apply(callee, args)
-        return ('callv', callee, args)
+        return self.call_value(callee, args)
+
+    def callable_choices(self, fn):
+        """a callable read out of a literal table (`TABLE.iter().find(|row| row.0 == key).map(|row| (row.1)(..))`, `TABLE[i].1`) or chosen by a
+        conditional: [(condition, crate function / closure)], first match wins, or None"""
+        if fn[0] == 'alt':
+            out = []
+            for c, v in fn[1]:
+                if v[0] == 'diverge':
+                    continue
+                if not ((v[0] == 'path' and v[1] in self.c.fns) or v[0] == 'closure'):
+                    return None
+                out.append((c, v))
+            return out or None
+        path = []
+        x = fn
+        while x[0] in ('tf', 'f') and len(path) < 3:
+            path.append(x[2])
+            x = x[1]
+        if x[0] in ('unwrap',):
+            x = x[1]
+        if x[0] == 'found' and x[1][0] == 'star' and x[1][1][0] == 'tuple' and x[1][3] == ('elem', x[1][2], x[1][1]) and not x[1][5] and len(x[1][1][1]) <= 32:
+            rows, eid, conds = x[1][1][1], x[1][2], x[1][4]
+            out = []
+            for r in rows:
+                cell = r
+                for k in reversed(path):
+                    if cell[0] == 'tuple' and isinstance(k, int) and k < len(cell[1]):
+                        cell = cell[1][k]
+                    elif cell[0] == 'struct' and k in cell[2]:
+                        cell = cell[2][k]
+                    else:
+                        return None
+                if not ((cell[0] == 'path' and cell[1] in self.c.fns) or cell[0] == 'closure'):
+                    return None
+                cs = [self.subst_elem(c, eid, r) for c in conds]
+                out.append((TRUE if not cs else cs[0] if len(cs) == 1 else ('and', cs), cell))
+            return out or None
+        return None
 
     def call_value(self, fn, args):
         """apply a callable value: closure literal, or the path of a crate function passed as a value"""
         if fn[0] == 'closure':
             return self.apply(fn, args)
+        ch = self.callable_choices(fn) if fn[0] in ('alt', 'tf', 'f') else None
+        if ch:
+            out, n0 = [], len(self.frame['conds'])
+            for c, v in ch:
+                self.frame['conds'].append(c)
+                out.append((c, self.call_value(v, args)))
+                self.frame['conds'].pop()
+                self.frame['conds'].append(self.neg(c))
+            del self.frame['conds'][n0:]
+            # no row matches: the lookup yields nothing and the unwrap / index panics
+            return ('alt', out + [(TRUE, ('diverge', 'panic', 0))]) if fn[0] != 'alt' else ('alt', out)
         if fn[0] == 'path' and fn[1] in self.c.fns:
             self.inline_calls.append((self.frame['callee'], fn[1], 0))
             return self.call_fn(fn[1], args)
